@@ -22,6 +22,8 @@ Generated/CoerceArms.lean (property C07): see coerce_arms.py — the arms of `co
 Generated/TypeNames.lean (property C09): see type_names.py — the name tables of `build_data_type`,
 `PrettyFieldDataType`, `is_data_type_with_children`, `Term::as_option`, `Strategy` Display / FromStr.  Obligations:
 lean/SaModel/Props/C09Gen.lean.
+Generated/Constants*.lean (C05, C08, C09, C14, C15, C16, C20): see constants.py — named constants, defaults, unit factors, guards and
+literal texts the model mirrors.  Obligations: lean/SaModel/Props/ConstGen*.lean.
 What each parser recognises and refuses: notes/translator.md.
 """
 import os
@@ -34,6 +36,7 @@ from rust_lex import Unrecognised  # noqa: E402
 import coerce_arms  # noqa: E402
 import type_names  # noqa: E402
 import adapter_bodies  # noqa: E402
+import constants  # noqa: E402
 
 ROOT = os.path.dirname(os.path.dirname(os.path.abspath(__file__)))
 
@@ -300,7 +303,7 @@ GENERATORS = [
     ("AdapterBodies", ["C19"], adapter_bodies.render),
     ("CoerceArms", ["C07"], coerce_arms.render),
     ("TypeNames", ["C09"], type_names.render),
-]
+] + constants.GENERATORS
 
 
 def main(argv):
